@@ -672,7 +672,7 @@ func init() {
 					if skips {
 						okCond := false
 						if b, ok := ast.Unparen(x.Cond).(*ast.BinaryExpr); ok && b.Op == token.EQL && own != nil && iv != nil {
-							l, rr := prog.IdentObj(info, b.X), prog.IdentObj(info, b.Y)
+							l, rr := derefObj(info, b.X), derefObj(info, b.Y)
 							if (l == iv && rr == own) || (l == own && rr == iv) {
 								okCond = true
 							}
@@ -725,13 +725,10 @@ func init() {
 			ck := r.P.Field("dkv/recovery", "CheckpointList", "checkpoints")
 			pendF := r.P.Field("dkv/recovery", "CheckpointList", "checkpointsPendingRemoval")
 			has := r.P.FuncObj("util/ds", "(*Set).Has")
-			var loop *ast.RangeStmt
-			inspect(f.Decl.Body, func(nd ast.Node) bool {
-				if rs, ok := nd.(*ast.RangeStmt); ok && prog.SelField(info, rs.X) == ck {
-					loop = rs
-				}
-				return true
-			})
+			var loop ast.Stmt // range or index loop over all checkpoints
+			for _, lp := range fullLoopsOver(info, f.Decl.Body, func(e ast.Expr) bool { return prog.SelField(info, e) == ck }) {
+				loop = lp.Stmt
+			}
 			if loop == nil {
 				r.Error("undecided: RetainOnly no longer loops over the checkpoints")
 				return
@@ -764,7 +761,7 @@ func init() {
 			}
 			nKeep, nDrop := 0, 0
 			spec.Step = func(c *pathsim.Ctx, s pathsim.State, ev *pathsim.Event) []pathsim.State {
-				if ev.Kind == pathsim.EvRangeIter && ev.Node == ast.Node(loop) {
+				if (ev.Kind == pathsim.EvRangeIter || ev.Kind == pathsim.EvLoopIter) && ev.Node == ast.Node(loop) {
 					if s.A == 1 {
 						c.Violate(loop.Pos(), "[lost-checkpoint] an iteration can end with the checkpoint neither retained nor queued for removal: its WAL file leaks or it silently disappears")
 					}
@@ -849,6 +846,41 @@ func init() {
 					return true
 				})
 			}
+			// the library spelling of the same loop: slices.ContainsFunc(cl.checkpoints, func(cp) bool { return cp.IncludesTable(uri) })
+			anyOf := map[*ast.CallExpr]bool{}
+			inspect(it.Decl.Body, func(m ast.Node) bool {
+				me, isExpr := m.(ast.Expr)
+				if !isExpr {
+					return true
+				}
+				call, ok := isCallToNamed(ii, me, "slices", "ContainsFunc")
+				if !ok || len(call.Args) != 2 || prog.SelField(ii, call.Args[0]) != ck {
+					return true
+				}
+				lit, ok := ast.Unparen(call.Args[1]).(*ast.FuncLit)
+				if !ok || len(lit.Type.Params.List) != 1 || len(lit.Type.Params.List[0].Names) != 1 {
+					return true
+				}
+				elem := ii.Defs[lit.Type.Params.List[0].Names[0]]
+				nRet, all := 0, true
+				ast.Inspect(lit.Body, func(q ast.Node) bool {
+					if ret, ok := q.(*ast.ReturnStmt); ok {
+						nRet++
+						c2, isCall := ast.Unparen(ret.Results[0]).(*ast.CallExpr)
+						if len(ret.Results) != 1 || !isCall || r.P.CalleeFunc(ii, c2) != cpInc {
+							all = false
+						} else if sel, ok := ast.Unparen(c2.Fun).(*ast.SelectorExpr); !ok || prog.IdentObj(ii, sel.X) != elem {
+							all = false
+						}
+					}
+					return true
+				})
+				if nRet > 0 && all {
+					anyOf[call] = true
+					okAny = true
+				}
+				return true
+			})
 			// polarity: `true` is returned exactly on a path where some checkpoint's IncludesTable held,
 			// and the function can return true (an "always false" answer lets neighbours delete shared files)
 			returnsTrue := false
@@ -871,6 +903,10 @@ func init() {
 						tv, ok := c.Info.Types[ev.Results[0]]
 						if !ok || tv.Value == nil {
 							if call, isCall := ast.Unparen(ev.Results[0]).(*ast.CallExpr); isCall && r.P.CalleeFunc(c.Info, call) == cpInc {
+								returnsTrue = true
+								return nil
+							}
+							if call, isCall := deref(c.Info, ev.Results[0]).(*ast.CallExpr); isCall && anyOf[call] {
 								returnsTrue = true
 								return nil
 							}
